@@ -26,6 +26,21 @@ _oh.propagate = False
 CONF = configuration.CONF
 
 
+def reset_process_globals():
+  """Bring openhtf's process-global registries back to the state of a fresh
+  process.  A run that was abandoned by the scheduler (deadlock, step budget)
+  never reaches its clean-up, and what it leaves behind (a record handler whose
+  lock is still owned by a dead thread, a registered Test) would make the next
+  run in this process behave differently."""
+  from openhtf.util import logs
+  lg = logging.getLogger(logs.LOGGER_PREFIX)
+  for h in list(lg.handlers):
+    if isinstance(h, logs.RecordHandler):
+      lg.removeHandler(h)
+  htf.Test.TEST_INSTANCES.clear()
+  htf.Test.HANDLED_SIGINT_ONCE = False
+
+
 class R(diagnoses_lib.DiagResultEnum):
   a = 'a'
   b = 'b'
@@ -121,6 +136,12 @@ def make_body(ctx, node, is_td_hint=None):
                           pl={k: getattr(v, 'iid', None) for k, v in plugs.items()},
                           plcls={k: getattr(v, 'cid', None) for k, v in plugs.items()}))
     hook = ctx.hooks.get('body')
+    try:
+      return _body_rest(test, b, m, hook)
+    finally:
+      ctx.events.append(('body_end', name, ctx.att[name]))
+
+  def _body_rest(test, b, m, hook):
     if hook:
       hook(ctx, name, test, b)
     if m == 'p':
@@ -372,6 +393,7 @@ def run_program(prog, calls, hooks=None, timeout_s=None, policy=None, use_sched=
 
 
 def _run_program(prog, calls, hooks=None, timeout_s=None):
+  reset_process_globals()
   ctx = Ctx(script_from_calls(calls), hooks)
   test, start = make_test(ctx, prog, timeout_s)
   out = []
